@@ -34,6 +34,10 @@ Definition prog_f17b : list item :=
    ILet "b" (call (EVar ["hidden"]));
    IFn false "dsp" [] (EVar ["b"])].
 
+Ltac vc := vm_compute; reflexivity.
+Ltac in_list := vm_compute; repeat (first [left; reflexivity | right]).
+Ltac priv := split; [discriminate | eexists; split; [in_list | split; [reflexivity | split; reflexivity]]].
+
 Lemma not_inside_top : forall M, M <> [] -> ~ inside M [].
 Proof. intros M HM [r Hr]. destruct M; [contradiction|discriminate]. Qed.
 
@@ -45,9 +49,9 @@ Lemma f8_refuted :
     /\ In (SLetRec ["dsp"] (ELam [] (EVar ["secret"]))) (chain_stmts e')
     /\ unbound [] e' = [] /\ run_dsp 10 e' = Some (VNum 42).
 Proof.
-  exists prog_f8. eexists. repeat split; try (vm_compute; reflexivity).
-  - vm_compute. left. reflexivity.
-  - vm_compute. right. left. reflexivity.
+  exists prog_f8. eexists.
+  split; [vc|]. split; [vc|]. split; [vc|]. split; [vc|].
+  split; [in_list|]. split; [in_list|]. split; vc.
 Qed.
 
 Lemma f9_refuted :
@@ -59,11 +63,9 @@ Lemma f9_refuted :
     /\ ~ inside ["m"] []
     /\ unbound [] e' = [] /\ run_dsp 10 e' = Some (VNum 7).
 Proof.
-  exists prog_f9. eexists. repeat split; try (vm_compute; reflexivity).
-  - discriminate.
-  - eexists. split. vm_compute. left. reflexivity. repeat split.
-  - vm_compute. right. left. reflexivity.
-  - apply not_inside_top. discriminate.
+  exists prog_f9. eexists.
+  split; [vc|]. split; [vc|]. split; [vc|]. split; [vc|].
+  split; [priv|]. split; [in_list|]. split; [apply not_inside_top; discriminate|]. split; vc.
 Qed.
 
 Lemma f9b_refuted :
@@ -75,11 +77,9 @@ Lemma f9b_refuted :
     /\ ~ inside ["o"] []
     /\ unbound [] e' = [] /\ run_dsp 10 e' = Some (VNum 7).
 Proof.
-  exists prog_f9b. eexists. repeat split; try (vm_compute; reflexivity).
-  - discriminate.
-  - eexists. split. vm_compute. left. reflexivity. repeat split.
-  - vm_compute. right. left. reflexivity.
-  - apply not_inside_top. discriminate.
+  exists prog_f9b. eexists.
+  split; [vc|]. split; [vc|]. split; [vc|]. split; [vc|].
+  split; [priv|]. split; [in_list|]. split; [apply not_inside_top; discriminate|]. split; vc.
 Qed.
 
 Lemma f17a_refuted :
@@ -91,10 +91,9 @@ Lemma f17a_refuted :
     /\ ~ inside ["outer"] []
     /\ unbound [] e' = [] /\ run_dsp 10 e' = Some (VNum 5).
 Proof.
-  exists prog_f17a. eexists. repeat split; try (vm_compute; reflexivity).
-  - vm_compute. right. left. reflexivity.
-  - vm_compute. right. left. reflexivity.
-  - apply not_inside_top. discriminate.
+  exists prog_f17a. eexists.
+  split; [vc|]. split; [vc|]. split; [vc|]. split; [vc|]. split; [vc|].
+  split; [in_list|]. split; [in_list|]. split; [apply not_inside_top; discriminate|]. split; vc.
 Qed.
 
 Lemma f17b_refuted :
@@ -106,11 +105,9 @@ Lemma f17b_refuted :
     /\ In (SLet [["b"]] (EApp (EVar ["m"; "hidden"]) [])) (chain_stmts e')
     /\ unbound [] e' = [] /\ run_dsp 10 e' = Some (VNum 7).
 Proof.
-  exists prog_f17b. eexists. repeat split; try (vm_compute; reflexivity).
-  - discriminate.
-  - eexists. split. vm_compute. left. reflexivity. repeat split.
-  - vm_compute. right. left. reflexivity.
-  - vm_compute. right. right. left. reflexivity.
+  exists prog_f17b. eexists.
+  split; [vc|]. split; [vc|]. split; [vc|]. split; [vc|].
+  split; [priv|]. split; [in_list|]. split; [in_list|]. split; vc.
 Qed.
 
 (* ---- the hypotheses of the positive theorems are satisfiable, with something to protect ---------------- *)
@@ -128,10 +125,8 @@ Lemma ok_satisfiable :
   /\ private_fn prog_ok ["m"] "h"
   /\ (exists e', convert_program [] prog_ok = (e', []) /\ unbound [] e' = [] /\ run_dsp 20 e' = Some (VNum 7)).
 Proof.
-  repeat split; try (vm_compute; reflexivity).
-  - discriminate.
-  - eexists. split. vm_compute. left. reflexivity. repeat split.
-  - eexists. repeat split; vm_compute; reflexivity.
+  split; [vc|]. split; [vc|]. split; [vc|]. split; [vc|]. split; [vc|].
+  split; [priv|]. eexists. split; [vc|]. split; vc.
 Qed.
 
 (* the same tree with the private member referenced from outside is rejected (fixture module_visibility_fail) *)
@@ -142,4 +137,6 @@ Definition prog_rejected : list item :=
 Lemma rejected_example :
   unique_fns prog_rejected = true /\ no_mod_let prog_rejected = true /\ pub_use_safe prog_rejected = true
   /\ snd (convert_program [] prog_rejected) = [mkErr ["m"] "h"].
-Proof. repeat split; vm_compute; reflexivity. Qed.
+Proof.
+  split; [vc|]. split; [vc|]. split; vc.
+Qed.
